@@ -247,6 +247,45 @@ def tlc_mig(w, cfgs, lines, name):
     return vj, st
 
 
+def alias_model_and_replay(w, rep, maxlen):
+    """TLC explores AliasImpl.tla (TypeConverter.AddImport as implemented) over every request history and checks the
+    bijection requirement; all histories are replayed into the real TypeConverter in a scratch copy of the tree."""
+    cfg = open(os.path.join(pl.VERIF, 'spec', 'Alias.cfg')).read().replace('MaxLen = 5', 'MaxLen = %d' % maxlen)
+    r = pl.tlc(w, 'AliasMC', 'AliasRun.cfg', files={'AliasRun.cfg': cfg}, workers=1, timeout=3000, name='alias')
+    ok = 'Model checking completed. No error has been found' in r['out']
+    if not ok:
+        cfg2 = cfg.replace('INVARIANT Bijective\n', '')
+        r2 = pl.tlc(w, 'AliasMC', 'AliasRun.cfg', files={'AliasRun.cfg': cfg2}, workers=1, timeout=3000, name='alias2')
+        hp = os.path.join(r2['dir'], 'alias_histories.json')
+    else:
+        hp = os.path.join(r['dir'], 'alias_histories.json')
+    if not os.path.exists(hp):
+        raise pl.ExitTwo('TLC produced no alias histories: ' + r['out'][-2000:])
+    gen, dist = pl.tlc_stats(r['out'])
+    hist = json.load(open(hp))['histories']
+    copy = w.path('repo-copy-alias')
+    shutil.copytree(pl.REPO, copy, ignore=shutil.ignore_patterns('.git'))
+    shutil.copy(os.path.join(pl.VERIF, 'harness', 'inpkg', 'verif_alias_test.go.txt'), os.path.join(copy, 'internal', 'migrate', 'verif_alias_test.go'))
+    hin, hout = w.path('alias-in.json'), w.path('alias-out.json')
+    json.dump({'histories': hist}, open(hin, 'w'))
+    env = pl.go_env({'VERIF_HISTORIES': hin, 'VERIF_REPLAY_OUT': hout}, scratch=False)
+    p = pl.run(['go', 'test', '-vet=off', '-count=1', '-run', 'TestVerifAliasReplay', './internal/migrate/'], cwd=copy, env=env, timeout=900)
+    if p.returncode != 0 or not os.path.exists(hout):
+        raise pl.ExitTwo('alias replay test failed: %s %s' % (p.stdout[-1500:], p.stderr[-1500:]))
+    summ = json.load(open(hout))
+    reasons = {}
+    for v in summ['violations'] or []:
+        reasons.setdefault(v['why'], v)
+    for why, v in reasons.items():
+        rep.found('C14.alias|%s' % why, 'real TypeConverter.AddImport: %s after %s -> %s' % (why, json.dumps(v['history'][: v['step'] + 1]), v['got']), v)
+    if not ok and not summ['violations']:
+        rep.problem('AliasImpl.tla violates Bijective but the real allocator does not on the replayed histories: the model no longer mirrors the code')
+    if summ['mismatches']:
+        rep.notes.append('real AddImport differs from AliasImpl.tla (outside the modelled design; requirement checked directly): %s' % json.dumps(summ['mismatches'][0])[:300])
+    return {'states': dist, 'histories_replayed': summ['histories'], 'requests_replayed': summ['steps'], 'model_conforms': not summ['mismatches'],
+            'sample_history': hist[len(hist) // 3]}
+
+
 def configs(tier, sd):
     rng = random.Random(sd * 7 + 13)
     quick = tier == 'quick'
@@ -304,6 +343,9 @@ def main(prop, tier):
                                'exit': pm.returncode, 'wrote': wrote, 'gofmt': True, 'compiles': True, 'diag': '\n'.join(errl)[-200:], 'sets': [], 'wantsets': [], 'hashes': []}
                         lines.append(rec)
                         invalid.append(rec)
+            alias = None
+            if prop == 'C14':
+                alias = alias_model_and_replay(w, rep, 4 if quick else 5)
             if not lines:
                 raise pl.ExitTwo('nothing to validate: %s' % dict(status))
             vj, st = tlc_mig(w, cfgs, lines, 'mig')
@@ -349,7 +391,7 @@ def main(prop, tier):
                 rep.cov.update({'evaluations': len(lines), 'distinct_nontrivial': len(specs) + len(invalid),
                                 'rule': 'one evaluation = one migrate run record (valid configuration: gofmt, compile with wire files set aside, set names, hashes over repeated runs; invalid input: exit status and output file)',
                                 'samples': [lines[0], invalid[0] if invalid else lines[-1]], 'configurations': len(specs), 'invalid_inputs': len(invalid),
-                                'status': dict(status), 'states': st, 'exhaustive': False})
+                                'status': dict(status), 'states': st + (alias or {}).get('states', 0), 'alias_allocator': alias, 'exhaustive': False})
             rep.assumptions += ['google/wire v0.7.0 from the module cache is the reference; configurations wire rejects are not counted',
                                 'single failing provider per run; provider bodies are the harness\'s']
     except pl.ExitTwo as e:
